@@ -3,6 +3,7 @@ import Mc.Drv.Apply
 import Mc.Drv.SyncHandle
 import Mc.Drv.HookCalls
 import Mc.Drv.Rounds
+import Mc.Drv.Events
 open Mc Mc.Drv
 
 def dispatch (c : J) : Res :=
@@ -12,6 +13,7 @@ def dispatch (c : J) : Res :=
   | "sync" => handleSync c
   | "hookcalls" => handleHookCalls c
   | "rounds" => handleRounds c
+  | "event" => handleEvent c
   | k => { agree := false, where_ := s!"unknown kind {k}" }
 
 partial def loop (h : IO.FS.Stream) (out : IO.FS.Stream) : IO Unit := do
